@@ -89,6 +89,101 @@ let () = reg "commutes" (fun args ->
   | [a; b] -> let (_, ba) = parse_pauli a and (_, bb) = parse_pauli b in if anti ba bb then "0" else "1"
   | _ -> "BAD")
 
+(* ---------------- specification runs (Spec.v) ---------------- *)
+let hex_of_n (n : n) : Stdlib.String.t =
+  match n with
+  | N0 -> "0"
+  | Npos p ->
+    let rec bits p acc = match p with XH -> true :: acc | XO q -> bits q (false :: acc) | XI q -> bits q (true :: acc) in
+    (* bits returns most-significant first *)
+    let bl = bits p [] in
+    let len = List.length bl in
+    let pad = (4 - len mod 4) mod 4 in
+    let bl = List.init pad (fun _ -> false) @ bl in
+    let buf = Buffer.create 16 in
+    let rec go = function
+      | a :: b :: c :: d :: r ->
+        let v = (if a then 8 else 0) + (if b then 4 else 0) + (if c then 2 else 0) + (if d then 1 else 0) in
+        Buffer.add_char buf "0123456789abcdef".[v]; go r
+      | _ -> () in
+    go bl; Buffer.contents buf
+let n_of_hex (h : Stdlib.String.t) : n =
+  (* build positive from most significant bit *)
+  let acc = ref N0 in
+  Stdlib.String.iter (fun c ->
+    let v = if c <= '9' then Char.code c - 48 else Char.code (Char.lowercase_ascii c) - 87 in
+    for k = 3 downto 0 do
+      let b = (v lsr k) land 1 = 1 in
+      acc := (match !acc with
+              | N0 -> if b then Npos XH else N0
+              | Npos p -> Npos (if b then XI p else XO p))
+    done) h;
+  !acc
+let show_form ((c, m) : bool * n) = (if c then "1:" else "0:") ^ hex_of_n m
+let parse_form (s : Stdlib.String.t) : bool * n =
+  match Stdlib.String.split_on_char ':' s with
+  | [c; m] -> (c = "1", n_of_hex m)
+  | _ -> failwith ("bad form " ^ s)
+let parse_pprod toks =
+  List.map (fun t -> match Stdlib.String.split_on_char ':' t with
+    | [q; p] -> (nat_of_int (int_of_string q), pz_of_char p.[0])
+    | _ -> failwith ("bad pauli term " ^ t)) toks
+let basis_of = function "X" -> BX | "Y" -> BY | _ -> BZ
+let parse_ctrl t =
+  if t.[0] = 'r' then CRec (nat_of_int (int_of_string (Stdlib.String.sub t 1 (Stdlib.String.length t - 1))))
+  else CVar (n_of_int (int_of_string (Stdlib.String.sub t 1 (Stdlib.String.length t - 1))))
+let nat_i t = nat_of_int (int_of_string t)
+let parse_sinstr toks =
+  match toks with
+  | ["U1"; g; q] -> SU1 (z_of_int (int_of_string g), nat_i q)
+  | ["U2"; g; a; b] -> SU2 (z_of_int (int_of_string g), nat_i a, nat_i b)
+  | "M" :: inv :: ps -> SMeas (parse_pprod ps, inv = "1")
+  | ["R"; b; q] -> SReset (basis_of b, nat_i q)
+  | ["MR"; b; q; inv] -> SMeasReset (basis_of b, nat_i q, inv = "1")
+  | "IF" :: c :: ps -> SPauliIf (parse_pprod ps, parse_ctrl c)
+  | ["FLIP"; v] -> SFlipLast (n_of_int (int_of_string v))
+  | ["RECV"; v] -> SRecVar (n_of_int (int_of_string v))
+  | ["MPAD"; b] -> SMpad (b = "1")
+  | "DET" :: ks -> SDetector (List.map nat_i ks)
+  | "OBS" :: idx :: rest ->
+    let ks = List.filter (fun t -> not (Stdlib.String.contains t ':')) rest in
+    let ps = List.filter (fun t -> Stdlib.String.contains t ':') rest in
+    SObservable (nat_i idx, List.map nat_i ks, parse_pprod ps)
+  | "PROBE" :: ps -> SProbe (parse_pprod ps)
+  | "SPP" :: dag :: ps -> SSpp (parse_pprod ps, dag = "1")
+  | _ -> failwith ("bad spec instruction: " ^ Stdlib.String.concat " " toks)
+let parse_spec args =
+  match split_on ";" args with
+  | [n; base] :: instrs ->
+    (nat_i n, nat_i base, List.map parse_sinstr (List.filter (fun l -> l <> []) instrs))
+  | _ -> failwith "spec header"
+let show_bits_gen ((f, b) : (bool * n) * (bool * bool) list) =
+  show_form f ^ "/" ^ Stdlib.String.concat "" (List.map (fun p -> Stdlib.String.make 1 (char_of_pz p)) b)
+(* spec n base ; instr ; instr ... -> forms of record, detectors, observables, probes *)
+let () = reg "spec" (fun args ->
+  let (n, base, c) = parse_spec args in
+  let r = srun n base c in
+  Printf.sprintf "rec=%s det=%s obs=%s probe=%s ncoins=%d"
+    (Stdlib.String.concat "," (List.map show_form r.recs))
+    (Stdlib.String.concat "," (List.map show_form r.dets))
+    (Stdlib.String.concat "," (List.map (fun (i, f) -> Printf.sprintf "%d=%s" (int_of_nat i) (show_form f)) r.obs))
+    (Stdlib.String.concat "," (List.map (function None -> "?" | Some f -> show_form f) r.probes))
+    (int_of_nat r.st.ncoins))
+let () = reg "specgens" (fun args ->
+  let (n, base, c) = parse_spec args in
+  let r = srun n base c in
+  Stdlib.String.concat " " (List.map show_bits_gen r.st.gens))
+(* consistent m ; form=bit ; form=bit ... -> 1/0 by the verified GF(2) solver *)
+let () = reg "consistent" (fun args ->
+  match split_on ";" args with
+  | [m] :: eqs ->
+    let eqs = List.concat_map (fun l -> List.map (fun t ->
+      match Stdlib.String.split_on_char '=' t with
+      | [f; b] -> (parse_form f, b = "1")
+      | _ -> failwith "bad equation") l) eqs in
+    if consistent (nat_i m) eqs then "1" else "0"
+  | _ -> "BAD")
+
 let () =
   (try
      while true do
